@@ -319,6 +319,15 @@ def idx1_overflow(ranks):
             return "rank %d: on_proc/off_proc row pointer arrays have %s entries but the block has %d rows (add_append wrote past the end)" % (r, d["I1"], d["L"])
     return None
 
+def partition_cols_wrong(ranks, nc, pcol):
+    """C->partition must describe the column distribution C really has (its owners are computed from it when a
+       communicator is built for C): global_num_cols, first_local_col, local_num_cols"""
+    for r, d in enumerate(ranks):
+        if d.get("PART") and (d["PART"][1], d["PART"][4], d["PART"][5]) != (nc, pcol[r], pcol[r + 1] - pcol[r]) and pcol[r + 1] > pcol[r]:
+            return "rank %d: partition says %d global columns, local block first %d size %d; the matrix has %d columns, local block first %d size %d" % (
+                r, d["PART"][1], d["PART"][4], d["PART"][5], nc, pcol[r], pcol[r + 1] - pcol[r])
+    return None
+
 def check_dist_matrix(ranks, ref, nr, nc, prow, pcol, condensed_offmap):
     """the property on the implementation's gathered output: global operator, ownership, block structure"""
     P = len(prow) - 1
@@ -413,6 +422,9 @@ def judge_par(ctx, c, impl, model):
         ov = idx1_overflow(parsed_i[key])
         if ov:
             ctx.signal("O", "par:pmult_T:idx1_overflow", "%s (P=%d): %s" % (key, c["P"], ov), case=c["line"]); break
+        pw = partition_cols_wrong(parsed_i[key], nc, pcol)
+        if pw:
+            ctx.signal("O", "par:%s:result_partition_cols" % ("pmult_T" if cond else "pmult"), "%s (P=%d): %s" % (key, c["P"], pw), case=c["line"])
         ok, why = check_dist_matrix(parsed_i[key], ref, nr, nc, prow, pcol, cond)
         if not ok:
             ctx.signal("O", sig, "%s (P=%d, tap=%d): %s" % (key, c["P"], c["tap"], why), case=c["line"]); break
